@@ -500,7 +500,8 @@ class PrettyPrinter:
             # for multiple comments associated with an attribute
             # simply join them together as a single string
             if isinstance(value, list):
-                value = " ".join(value)
+                # a "#" comment runs to the end of the line, so write any "/* */" comments first
+                value = " ".join(sorted(value, key=lambda c: c.startswith("#")))
 
             comment = self.format_comment(spacer, value)
 
